@@ -21,6 +21,8 @@ def plan(tier, seed):
         for r in range(7, top + 1):
             for f in range(12):
                 specs.append({'part': 'enum', 'levels': [r], 'faces': [f]})
+    for rc, b in ([(-1, 8), (0, 9), (2, 12)] if tier == 'quick' else [(-1, 9), (0, 9), (0, 10), (0, 11), (2, 12), (3, 14), (19, 29)]):
+        specs.append({'part': 'ladder', 'rc': rc, 'b': b})
     nrand = 12 if tier == 'quick' else 150
     for f in range(12):
         specs.append({'part': 'structured', 'face': f, 'nrand': nrand})
@@ -116,6 +118,19 @@ def run_shard(spec, ctx):
                     cells_seen[k] = i
             ctx.count('enumerated_r%02d' % r, len(ids))
         ctx.sample({'id': ids[len(ids) // 2], 'r': r, 'decoded': list(key_of(ser.deserialize(ids[len(ids) // 2])))})
+    elif part == 'ladder':
+        rc, b = spec['rc'], spec['b']
+        c = 0 if rc == -1 else gen.random_cell(ctx.rnd, a5, rc)
+        ids = a5.cell_to_children(c, b)
+        want = a5.get_num_cells(b) // (a5.get_num_cells(rc) if rc >= 0 else 1)
+        ctx.case(('ladder', c, b))
+        ctx.count('ladder_ids', len(ids))
+        if len(ids) != want or len(set(ids)) != want:
+            ctx.fail('enum_count', {'r': b, 'parent': c}, listed=len(ids), distinct=len(set(ids)), want=want)
+        step = max(1, len(ids) // 30000)
+        for i in ids[::step] + ids[-2:]:
+            check_id(i, b, ctx, ser, table, {'r': b, 'id': i, 'via': 'ladder'})
+        ctx.sample({'parent': c, 'r': b, 'ids': len(ids)})
     elif part == 'structured':
         f = spec['face']
         o = origins[f]
